@@ -136,3 +136,30 @@ def run_tlc(module, cfg, workdir, workers=16, env=None, extra=(), timeout=3600,
     # the metadir only holds fingerprints / queues; remove it straight away (disk is limited)
     subprocess.call(["rm", "-rf", meta])
     return res
+
+
+def run_apalache(module, init, inv, length, nxt="Next", workdir="/tmp", timeout=600, spec_dir=SPEC_DIR):
+    """apalache-mc check --init --inv --length --next on spec/<module>.tla (symbolic, bounded by `length` steps from
+    ANY state satisfying `init`: with init = IndInit and length = 1 this is the inductive step).
+    Returns (outcome, wall_s, tail) with outcome in {"NoError", "Error", "Failed"}."""
+    out = os.path.join(workdir, "apa_%s_%s_%s_%d_%s" % (module, inv, nxt, os.getpid(), os.urandom(3).hex()))
+    cmd = ["apalache-mc", "check", "--init=" + init, "--inv=" + inv, "--length=%d" % length, "--next=" + nxt,
+           "--out-dir=" + out, "--run-dir=" + out, module + ".tla"]
+    slot = _acquire_slot("model", MODEL_SLOTS)
+    t0 = time.time()
+    try:
+        p = subprocess.run(cmd, cwd=spec_dir, stdout=subprocess.PIPE, stderr=subprocess.STDOUT, timeout=timeout,
+                           universal_newlines=True, env=dict(os.environ, JVM_ARGS="-Xmx2g"))
+        txt = p.stdout
+    except subprocess.TimeoutExpired:
+        txt = "[vlib] apalache timed out"
+    finally:
+        slot.close()
+    subprocess.call(["rm", "-rf", out])
+    if "The outcome is: NoError" in txt and "EXITCODE: OK" in txt:
+        oc = "NoError"
+    elif "The outcome is: Error" in txt and "EXITCODE: ERROR (12)" in txt:
+        oc = "Error"
+    else:
+        oc = "Failed"
+    return oc, time.time() - t0, txt[-1500:]
